@@ -207,7 +207,7 @@ def lean_audit(prop_id, extra_modules=()):
     cur = None
     for chunk in re.split(r"(?=')", out):
         pass
-    for m in re.finditer(r"'([^']+)' (does not depend on any axioms|depends on axioms: \[([^\]]*)\])", out):
+    for m in re.finditer(r"'(\S+)' (does not depend on any axioms|depends on axioms: \[([^\]]*)\])", out):
         name = m.group(1)
         axs = set(a.strip() for a in (m.group(3) or "").replace("\n", " ").split(",") if a.strip())
         res["axioms"][name] = sorted(axs)
